@@ -241,8 +241,13 @@ func runCase(c Val) Val {
 	if err != nil {
 		panic(err)
 	}
-	vp := mpegts.NewH264Packetizer(&codec.VideoMeta{Codec: "H264", Sps: cfg.At(5).Bytes(), Pps: cfg.At(6).Bytes()}, sg)
+	// the metadata exists before its parameter sets are known (an SDP without sprop-parameter-sets: the RTP
+	// depacketizer fills VideoMeta.Sps/Pps from the stream later): the packetizer is built on the empty metadata
+	// and the sets are assigned afterwards, here and by the history's ( 6 sps pps ) operations
+	vm := &codec.VideoMeta{Codec: "H264"}
+	vp := mpegts.NewH264Packetizer(vm, sg)
 	ap := mpegts.NewAacPacketizer(&codec.AudioMeta{Codec: "AAC", SampleRate: 44100, Channels: 2, Sps: aac.Encode2BytesASC(2, 4, 2)}, sg)
+	vm.Sps, vm.Pps = cfg.At(5).Bytes(), cfg.At(6).Bytes()
 
 	var readers []keptReader
 	var pls [][]byte
@@ -292,6 +297,8 @@ func runCase(c Val) Val {
 			} else {
 				res = L(I(4), L())
 			}
+		case 6:
+			vm.Sps, vm.Pps = op.At(1).Bytes(), op.At(2).Bytes()
 		default:
 			sg.Close()
 			pl.Close()
@@ -432,8 +439,13 @@ func runLts(c Val) Val {
 	if err != nil {
 		panic(err)
 	}
-	vp := mpegts.NewH264Packetizer(&codec.VideoMeta{Codec: "H264", Sps: cfg.At(5).Bytes(), Pps: cfg.At(6).Bytes()}, sg)
+	// the metadata exists before its parameter sets are known (an SDP without sprop-parameter-sets: the RTP
+	// depacketizer fills VideoMeta.Sps/Pps from the stream later): the packetizer is built on the empty metadata
+	// and the sets are assigned afterwards, here and by the history's ( 6 sps pps ) operations
+	vm := &codec.VideoMeta{Codec: "H264"}
+	vp := mpegts.NewH264Packetizer(vm, sg)
 	ap := mpegts.NewAacPacketizer(&codec.AudioMeta{Codec: "AAC", SampleRate: 44100, Channels: 2, Sps: aac.Encode2BytesASC(2, 4, 2)}, sg)
+	vm.Sps, vm.Pps = cfg.At(5).Bytes(), cfg.At(6).Bytes()
 
 	ctl := sched.New()
 	ctl.Allow = func(thread, point string) bool {
